@@ -194,10 +194,21 @@ def gen(stratum, rng, tier):
         # practice >= ~4000 models; the time per case grows about quadratically with the model count
         n = rng.choice([12, 13, 14, 14]) if tier == "quick" else rng.randint(12, 15)
         kmin = 4 if n >= 14 and tier == "quick" else 2
-        clauses = [cnf.rand_clause(rng, n, rng.choice([2, 3, 3, 4])) for _ in range(rng.randint(kmin, 9))]
+        from vf.oracles import sat as osat
+
+        hi = 9000 if tier == "quick" else 20000
+        for _ in range(200):
+            clauses = [cnf.rand_clause(rng, n, rng.choice([2, 3, 3, 4])) for _ in range(rng.randint(kmin, 9))]
+            ms = osat.ModelSet(list(range(1, n + 1)))
+            if 2500 <= ms.count(ms.models(clauses)) <= hi:
+                break
         # a correct enumeration can never return more than 2**n entries: with this limit a solver that re-finds
         # models stops (and is convicted of duplicates) instead of running to the step budget
-        calls = [{"solution_limit": 2 ** n + 1, "luby_factor": rng.choice([1, 1, 2, 3, 5])}]
+        # luby_factor 1 restarts (and re-reduces a database of thousands of blocking clauses) after every conflict:
+        # correct but pathologically slow (one 9 000-model instance needed 930M steps), so it is left to the
+        # thorough tier
+        lfs = [2, 3, 5, 5, 10] if tier == "quick" else [1, 2, 3, 5, 10]
+        calls = [{"solution_limit": 2 ** n + 1, "luby_factor": rng.choice(lfs)}]
         budget = BUDGET_BIG
     else:
         raise ValueError(stratum)
@@ -205,7 +216,7 @@ def gen(stratum, rng, tier):
     if rng.random() < 0.5:
         rng.shuffle(shuffled)
     allass = [l for kw in calls for l in kw.get("assumptions", [])]
-    if stratum not in ("reduce", "default-mode") and allass == []:
+    if stratum not in ("reduce", "default-mode", "enum-reduce") and allass == []:  # (renumbering adds unused variables)
         shuffled, _ = cnf.renumber(shuffled, rng)
     return {"clauses": shuffled, "calls": calls, "known": known, "budget": budget}
 
